@@ -292,6 +292,32 @@ func reachableAvoiding(start *ssa.BasicBlock, stop func(*ssa.BasicBlock) bool) m
 	return seen
 }
 
+// reachableAssuming is reachableAvoiding restricted to paths on which the boolean SSA value v has
+// the value assume at every branch that tests it (an SSA value is immutable, so branches on the same
+// value are correlated).
+func reachableAssuming(start *ssa.BasicBlock, stop func(*ssa.BasicBlock) bool, v ssa.Value, assume bool) map[*ssa.BasicBlock]bool {
+	dead := map[edge]bool{}
+	for _, e := range boolEdges(v, !assume) {
+		dead[e] = true
+	}
+	seen := map[*ssa.BasicBlock]bool{}
+	var walk func(b *ssa.BasicBlock)
+	walk = func(b *ssa.BasicBlock) {
+		if seen[b] || stop(b) {
+			return
+		}
+		seen[b] = true
+		for i, s := range b.Succs {
+			if dead[edge{b, i}] {
+				continue
+			}
+			walk(s)
+		}
+	}
+	walk(start)
+	return seen
+}
+
 func blockHasCall(b *ssa.BasicBlock, pred func(ssa.CallInstruction) bool) bool {
 	for _, in := range b.Instrs {
 		if ci, ok := in.(ssa.CallInstruction); ok && pred(ci) {
